@@ -1062,7 +1062,7 @@ impl<'a> CompilerState<'a> {
                 Rule::neg => rhs?.checked_neg().ok_or_else(|| {
                     self.syntax_error("Constant expression overflow", op.as_span().start())
                 }),
-                Rule::not => Ok(!rhs?),
+                Rule::not => Ok((rhs? == 0) as i32),
                 Rule::bnot => Ok(!rhs?),
                 _ => unreachable!(),
             })
